@@ -119,6 +119,8 @@ def corpus(ctx, rng):
             args = [a for a in o if not a.startswith("--ff")]
             ff = next((a for a in o if a.startswith("--ff")), "--ff=AMBER")
             jobs.append({"what": f"{name}", "text": gen.pdb_text(chains), "args": [ff] + args})
+    from .. import corpus as shared
+    jobs += shared.variants(ctx.quick, rng)
     ic = gen.peptide(["ALA", "SER", "LYS", "GLY", "ASP"], start=50, icodes={2: "A", 3: "B"})
     for a in ic:
         if a["res_index"] in (2, 3):
